@@ -54,12 +54,30 @@ SORTS = {
 
 # station ids are registered in this (non-lexicographic) pool order after a permutation
 STATION_POOL = ["st-q", "st-b", "st-z", "st-a", "st-m", "st-c"]
+BIG_POOL = ["PS-%d" % i for i in (10, 9, 2, 1, 11, 3, 20, 4, 12, 5, 100, 6, 7, 8)]
 
 # --------------------------------------------------------------------------- build layer
 
 
 def parse_start(spec):
-    return datetime.fromisoformat(spec.get("start", "2020-03-01T08:00:00"))
+    """Simulation start; with spec["start_tz"] = "pytz:<zone>" / "zoneinfo:<zone>" / "utc:" the same
+    wall clock as an aware datetime (the tutorials localise the start with pytz)."""
+    naive = datetime.fromisoformat(spec.get("start", "2020-03-01T08:00:00"))
+    tz = spec.get("start_tz")
+    if not tz:
+        return naive
+    kind, _, zone = tz.partition(":")
+    if kind == "pytz":
+        import pytz
+
+        return pytz.timezone(zone).localize(naive)
+    if kind == "zoneinfo":
+        import zoneinfo
+
+        return naive.replace(tzinfo=zoneinfo.ZoneInfo(zone))
+    from datetime import timezone
+
+    return naive.replace(tzinfo=timezone.utc)
 
 
 def make_evse(s):
@@ -461,8 +479,9 @@ def event_key(e):
 
 # ------------------------------------------------------------------------------ strategies
 
-VOLTS = st.sampled_from([120.0, 208.0, 208.0, 240.0, 277.0])
-PHASES = st.sampled_from([30.0, -90.0, 150.0, 0.0, 180.0, -120.0])
+# whole numbers come both as floats and as Python ints (the way callers usually write them)
+VOLTS = st.sampled_from([120.0, 208.0, 208, 240, 277.0])
+PHASES = st.sampled_from([30.0, -90, 150.0, 0, 180.0, -120])
 # includes lengths that do not divide an hour (7, 8, 45), fractional ones (0.7, 2.5), one whose
 # length in seconds is not a whole number (0.125 min = 7.5 s) and one whose float product with 60
 # falls just below an integer (2.05 * 60 = 122.99999999999999)
@@ -474,7 +493,7 @@ def station_specs(draw, sid, kinds=("cont", "cont0", "deadband", "finite"), fini
     k = draw(st.sampled_from(kinds))
     base = {"id": sid, "voltage": draw(VOLTS), "phase": draw(PHASES)}
     if k == "cont0":  # continuous from zero, finite maximum
-        base.update(kind="cont", max=draw(st.sampled_from([16.0, 32.0, 32.0, 40.0, 80.0])), min=0)
+        base.update(kind="cont", max=draw(st.sampled_from([16.0, 32.0, 32, 40, 80.0])), min=0)
     elif k == "cont":
         mx = draw(st.sampled_from([16.0, 32.0, 80.0] if finite_max else [16.0, 32.0, 80.0, None]))
         # min_rate > 0 rejects the 0 A pilot every idle period needs (EVSE._valid_rate), so such
@@ -565,12 +584,12 @@ def session_lists(draw, stations, max_per_station=3, window=6, max_stay=5, energ
 
 
 @st.composite
-def constraint_lists(draw, stations, max_constraints=4, limits=(20.0, 50.0, 100.0, 1000.0)):
+def constraint_lists(draw, stations, max_constraints=4, limits=(20.0, 50, 100.0, 1000)):
     ids = [s["id"] for s in stations]
     out = []
     for j in range(draw(st.integers(0, max_constraints))):
         members = draw(st.lists(st.sampled_from(ids), min_size=1, max_size=len(ids), unique=True))
-        coeffs = {i: draw(st.sampled_from([1.0, 1.0, 1.0, -1.0, 0.5, 0.25, 2.0, 1.5])) for i in members}
+        coeffs = {i: draw(st.sampled_from([1.0, 1, 1, -1.0, 0.5, 0.25, 2, 1.5])) for i in members}
         out.append({"name": "con-%d" % j, "limit": draw(st.sampled_from(list(limits))), "coeffs": coeffs})
     return out
 
@@ -641,6 +660,11 @@ def scenarios(
 ):
     n = draw(st.integers(1, max_stations))
     ids = list(draw(st.permutations(STATION_POOL)))[:n]
+    if max_stations >= 6 and draw(st.integers(0, 14)) == 0:
+        # a larger site whose station ids carry numbers ("PS-10" sorts before "PS-2" as a string)
+        n = draw(st.integers(8, 14))
+        ids = list(draw(st.permutations(BIG_POOL)))[:n]
+        max_per_station = min(max_per_station, 2)
     sched_kind = scheduler if scheduler != "any" else draw(st.sampled_from(["scripted", "scripted", "scripted", "always_max", "uncontrolled", "sorted"]))
     station_kinds = kinds
     if sched_kind == "sorted":
@@ -716,4 +740,6 @@ def scenario_labels(spec):
         labels.add("mixed_voltage")
     if spec["period"] != int(spec["period"]):
         labels.add("fractional_period")
+    if len(spec["stations"]) >= 8:
+        labels.add("large_site_numbered_ids")
     return labels
